@@ -166,24 +166,31 @@ def random_lists(rng, n, k, dup):
     return out
 
 
-SHIFTS = ["0x1p-10", "0x1.0624dd2f1a9fcp-10", "0x1p-4", "0x1.12e0be826d695p-30", "0"]
+# shifts: short dyadics keep the exact rationals of the model small (the extracted Qc arithmetic is
+# unary-constructor based and quadratic); the library defaults (1e-3, 1e-9 as doubles) appear on small cases
+SHIFTS = ["0x1p-10", "0x1p-4", "0x1.8p-12", "0x1p-20", "0"]
+SHIFT_DEFAULTS = ["0x1.0624dd2f1a9fcp-10", "0x1.12e0be826d695p-30"]
 
 
 def gen_wm_lle(rng):
-    n = rng.choice([4, 5, 6, 8, 10, 12])
-    dim = rng.choice([1, 2, 3, 4])
-    kind = rng.choice(["linear", "linear", "poly2"])
-    pts = gen_points(rng, n, dim, 5 if kind == "linear" else 3)
+    kind = rng.choice(["linear", "linear", "linear", "poly2"])
+    if kind == "poly2":
+        n, dim, span, kmax = rng.choice([4, 5, 6]), rng.choice([1, 2]), 2, 3
+    else:
+        n, dim, span, kmax = rng.choice([4, 5, 6, 8, 10]), rng.choice([1, 2, 3, 4]), 4, 5
+    pts = gen_points(rng, n, dim, span)
     n = len(pts)
     K = kernel_table(pts, kind)
-    k = rng.randint(1, min(n - 1, 6))
+    k = rng.randint(1, min(n - 1, kmax))
     mode = rng.random()
     if mode < 0.6:
         nb = knn_lists(K, k)
     else:
         nb = random_lists(rng, n, k, dup=mode > 0.85)
-    ts = rng.choice(["0x1p-10", "0x1.0624dd2f1a9fcp-10", "0x1p-4", "0x1p-7"])
-    return {"kind": "WM", "meth": "lle", "n": n, "d": 1, "shift": rng.choice(SHIFTS), "tshift": ts,
+    small = n <= 5 and k <= 3
+    ts = rng.choice(["0x1p-10", "0x1p-4", "0x1p-7"] + (SHIFT_DEFAULTS[:1] if small else []))
+    shift = rng.choice(SHIFTS + (SHIFT_DEFAULTS if small else []))
+    return {"kind": "WM", "meth": "lle", "n": n, "d": 1, "shift": shift, "tshift": ts,
             "nbrs": nb, "kern": K, "gen": "lle-" + kind}
 
 
@@ -197,7 +204,7 @@ def gen_wm_ltsa(rng):
     k = rng.randint(3, min(n - 1, 7))
     d = rng.randint(1, min(4, dim if kind == "linear" else 4, k - 1))
     nb = knn_lists(K, k) if rng.random() < 0.7 else random_lists(rng, n, k, dup=False)
-    return {"kind": "WM", "meth": "ltsa", "n": n, "d": d, "shift": rng.choice(SHIFTS), "tshift": "0",
+    return {"kind": "WM", "meth": "ltsa", "n": n, "d": d, "shift": rng.choice(SHIFTS + SHIFT_DEFAULTS), "tshift": "0",
             "nbrs": nb, "kern": K, "gen": "ltsa-" + kind}
 
 
@@ -236,15 +243,15 @@ def hlle_ncols(d):
 
 
 def gen_wm_hlle_flat(rng, dmax):
-    d = rng.choice([1, 1, 2, 2, 3][: (5 if dmax >= 3 else 4)])
-    if dmax >= 4 and rng.random() < 0.3:
+    d = rng.choice([1, 1, 2, 2, 2, 3] if dmax >= 3 else [1, 2, 2])
+    if dmax >= 4 and rng.random() < 0.15:
         d = 4
     nc = hlle_ncols(d)
-    n = nc + rng.randint(2, 5)
-    X, pts = flat_data(rng, n, d, 6 if d > 1 else 12)
+    n = nc + rng.randint(2, 4 if d < 3 else 2)
+    X, pts = flat_data(rng, n, d, 5 if d > 1 else 9)
     n = len(pts)
     K = kernel_table(pts, "linear")
-    k = rng.randint(nc, n - 1)
+    k = rng.randint(nc, min(n - 1, nc + 2))
     nb = knn_lists(K, k) if rng.random() < 0.6 else random_lists(rng, n, k, dup=False)
     return {"kind": "WM", "meth": "hlle", "n": n, "d": d, "shift": "0", "tshift": "0", "nbrs": nb,
             "kern": K, "flatX": [list(x) for x in X], "gen": "hlle-flat-d%d" % d}
@@ -252,12 +259,12 @@ def gen_wm_hlle_flat(rng, dmax):
 
 def gen_wm_hlle_oracle(rng):
     # d = 1: 3 Gram-Schmidt columns, cheap enough to run in exact arithmetic on the oracle eigenvectors
-    n = rng.choice([6, 7, 8])
+    n = rng.choice([5, 6, 7])
     dim = rng.choice([2, 3])
     pts = gen_points(rng, n, dim, 5)
     n = len(pts)
     K = kernel_table(pts, rng.choice(["linear", "poly2"]))
-    k = rng.randint(3, min(n - 1, 5))
+    k = rng.randint(3, 4)
     return {"kind": "WM", "meth": "hlle", "n": n, "d": 1, "shift": "0", "tshift": "0",
             "nbrs": knn_lists(K, k), "kern": K, "gen": "hlle-oracle-d1"}
 
@@ -280,21 +287,27 @@ def gen_emb(rng, meth, thorough):
         if flat:
             c["flatX"] = [list(x) for x in X]
         return c
-    n = rng.choice([6, 8, 10, 12, 16] if not thorough else [6, 8, 12, 16, 24, 32])
+    if meth == "lle":
+        n = rng.choice([6, 8, 10] if not thorough else [6, 8, 10, 12, 20])
+    else:
+        n = rng.choice([6, 8, 10, 12, 16] if not thorough else [6, 8, 12, 16, 24, 32])
     dim = rng.choice([2, 3, 4])
     flat = meth == "ltsa" and rng.random() < 0.35
-    kind = "linear" if flat else rng.choice(["linear", "poly2"] if meth == "lle" else ["linear", "poly2", "rbf"])
+    kind = "linear" if flat else rng.choice(["linear", "linear", "poly2"] if meth == "lle" else ["linear", "poly2", "rbf"])
     if flat:
         d = rng.choice([1, 2, 3])
         X, pts = flat_data(rng, n, d, 6 if d > 1 else 15)
     else:
-        X, pts = None, gen_points(rng, n, dim, 5)
+        X, pts = None, gen_points(rng, n, dim, 4 if meth == "lle" else 5)
         d = rng.randint(1, min(4, n - 2, dim if (meth == "ltsa" and kind == "linear") else 4))
     n = len(pts)
-    k = rng.randint(max(3, d + 1), n - 1)
-    shift = rng.choice(["0x1p-10", "0x1.12e0be826d695p-30", "0x1p-20"])
+    if meth == "lle" and rng.random() < 0.7:
+        k = rng.randint(3, min(5, n - 1))
+    else:
+        k = rng.randint(max(3, d + 1), n - 1)
+    shift = rng.choice(["0x1p-10", "0x1p-20"] + (["0x1.12e0be826d695p-30"] if meth == "ltsa" else []))
     c = {"kind": "EMB", "meth": meth, "nm": nm, "n": n, "k": k, "d": d, "shift": shift,
-         "tshift": rng.choice(["0x1p-10", "0x1.0624dd2f1a9fcp-10"]), "kern": kernel_table(pts, kind),
+         "tshift": rng.choice(["0x1p-10", "0x1p-7"]), "kern": kernel_table(pts, kind),
          "gen": "emb-%s-%s%s" % (meth, kind, "-flat" if flat else "")}
     if flat:
         c["flatX"] = [list(x) for x in X]
@@ -497,6 +510,22 @@ def local_gap_ok(mats, k, d, rel=1e-7):
     return True
 
 
+def model_feasible(c, nb, quick):
+    """cost guard for the extracted exact arithmetic (Qc over unary-constructor integers)"""
+    n, d, k = c["n"], c["d"], len(nb[0])
+    if c["meth"] == "lle":
+        return k <= 5 and n <= 12
+    if c["meth"] == "ltsa":
+        return n * k * k <= 2500
+    if "flatX" in c:
+        if d <= 2:
+            return k <= 9 and n <= 12
+        if d == 3:
+            return (k <= 10 and n <= 13) if quick else k <= 12
+        return (not quick) and k <= 16
+    return d == 1 and k <= 4 and n <= 8
+
+
 class Stats:
     def __init__(self):
         self.hist = {}
@@ -538,7 +567,7 @@ def check_matrix(ctx, mexe, c, nbrs, mats, Mimpl, model_out, stats):
     Mmod, err = parse_model_matrix(model_out, n)
     if Mmod is None:
         stats.counts["wm_degenerate"] += 1
-        if err.startswith("OOB"):
+        if err.startswith("OOB"):  # SOLVEFAIL = singular local system / degenerate Gram-Schmidt: no unique matrix
             ctx.mismatch(slim(c), "model reports an out-of-range access (%s) on an input the harness accepted" % err)
         return None
     if not finite(Mimpl):
@@ -676,8 +705,8 @@ def evaluate(ctx, exe, mexe, cases, stats):
         if c["meth"] in ("ltsa", "hlle") and not (finite(res["mats"].get("Eloc")) and finite(res["mats"].get("rsk"))):
             ctx.mismatch(slim(c), "local eigensolver output missing or non-finite")
             continue
-        if c["meth"] == "hlle" and "flatX" not in c and c["d"] > 1:
-            continue    # exact Gram-Schmidt on 53-bit oracle vectors is too expensive beyond d = 1
+        if not model_feasible(c, nb, ctx.quick):
+            continue    # exact arithmetic too expensive: the case only feeds the end-to-end clauses
         lines.append(model_line(c, nb, res["mats"]))
         idx.append(t)
     outs = run_model_lines(ctx, mexe, lines)
